@@ -2,6 +2,7 @@ package tables
 
 import (
 	"go/constant"
+	"go/token"
 	"go/types"
 	"sort"
 )
@@ -107,6 +108,10 @@ func atomKey(a Atom) string {
 	case "eq":
 		if a.K != nil {
 			return "eq:" + a.K.ExactString()
+		}
+	case "cmp":
+		if a.K != nil {
+			return "cmp:" + a.Op.String() + ":" + a.K.ExactString()
 		}
 	}
 	return "unknown:" + a.Text + "@" + itoa(int(a.Pos))
@@ -227,8 +232,9 @@ func Sat(f Formula, assume ...Assume) Verdict {
 		if _, ok := fixed[k]; ok {
 			continue
 		}
-		if a.Kind == "unknown" {
-			unknown = append(unknown, k)
+		if a.Kind == "unknown" || a.Kind == "cmp" {
+			unknown = append(unknown, k) // an ordering atom is only interpreted when the caller fixes it
+
 		} else {
 			known = append(known, k)
 		}
@@ -288,6 +294,28 @@ func Sat(f Formula, assume ...Assume) Verdict {
 		}
 	}
 	return res
+}
+
+// ForValue fixes every atom of f that speaks about the receiver's value for the
+// concrete value k: `recv == K` and `recv ⋈ K` are evaluated; "found" atoms are
+// fixed through isKey (nil: left open). What stays open are "unknown" atoms.
+func ForValue(f Formula, k constant.Value, isKey func(m *types.Var) (bool, bool)) []Assume {
+	var out []Assume
+	for _, a := range Atoms(f) {
+		switch a.Kind {
+		case "eq":
+			out = append(out, Assume{Atom: a, Val: constant.Compare(k, token.EQL, a.K)})
+		case "cmp":
+			out = append(out, Assume{Atom: a, Val: constant.Compare(k, a.Op, a.K)})
+		case "found":
+			if isKey != nil {
+				if v, ok := isKey(a.Map); ok {
+					out = append(out, Assume{Atom: a, Val: v})
+				}
+			}
+		}
+	}
+	return out
 }
 
 // FoundIn is the atom "the receiver is a key of m".
